@@ -3,6 +3,8 @@ package j5schema
 // Overlay-only constructors so harnesses in other packages can build schema
 // values whose fields are unexported. Nothing here is added to /repo.
 
+import "google.golang.org/protobuf/types/descriptorpb"
+
 func VerifEnumSchema(prefix string, names []string) *EnumSchema {
 	es := &EnumSchema{NamePrefix: prefix}
 	es.name = "E"
@@ -133,4 +135,11 @@ func (u *VerifUniverse) VerifAllMessages() []*VerifMessage {
 		}
 	}
 	return out
+}
+
+// VerifPackageScope: a pseudo message standing for the package scope of file i
+// (type names written at file level, e.g. rpc input/output types, resolve from here)
+func (u *VerifUniverse) VerifPackageScope(i int) *VerifMessage {
+	f := u.Files[i]
+	return &VerifMessage{full: f.fdp.GetPackage(), file: f, dp: &descriptorpb.DescriptorProto{}}
 }
